@@ -70,6 +70,7 @@ impl Property for C02 {
 
     fn generate(&self, tape: &mut Tape, _tier: Tier, known: &Known) -> Value {
         let mut cfg = BodyCfg::full();
+        cfg.explicit_jump_times = true;
         cfg.exclude_reg_in_diff_switch = known.has("c05-reg-in-diff-switch");
         cfg.nested_diff_switch = !known.has("nested-diff-switch");
         cfg.const_ternary_cond = !known.has("reg-mention-eliminated");
